@@ -15,13 +15,19 @@ Preconditions (the Boolean predicates `Wire.Ipfix.wf…`, all decidable; see `Sp
 * the length 65535 (variable length) only on string / octetArray elements, the value then carries a
   1-octet length prefix (< 255 octets) or the 3-octet prefix 255 + u16 (any length < 65536, also allowed
   for short values); every other specifier length is a fixed length and the value has exactly it;
-* **every data record is longer than 4 octets on the wire** — known finding K2: the record loop
-  continues only while more than 4 octets are left, so a trailing record of ≤ 4 octets is taken for
-  padding and dropped (`k2_counterexample`);
-* at most 4 octets of padding (any content), set length < 65536 (the decoder's 16-bit arithmetic then
-  never wraps), sets non-empty, template ids non-zero (id 0 at a record boundary of a template set is the
-  padding test), a template record (set id 2) has at least one field, element ids < 32768, enterprise
-  elements have id ≥ 1 (the decoder tests `id > 0x8000`, not the E bit);
+* every data record has a positive length on the wire (a record of no octets cannot be told from the end
+  of the set; the decoder reports `zero-length data record`, F2) — the former "longer than 4 octets"
+  (finding K2) is gone since the padding repair: `k2_repaired`;
+* padding (any content) of a data set **shorter than the shortest record of the template**, RFC 7011 §3.3.1
+  (`wfDataPad`, `Wire.Ipfix.minRecLen`: fixed lengths plus one octet per variable-length field) — the
+  former `pad ≤ 4` was a hypothesis forced by the decoder's constant `> 4`, not by the RFC; under it 5..7
+  octets of padding after records of 8 or more octets lost the whole message (F16, `k3_repaired`);
+  padding of a template set at most 4 octets (`wfTplPad`: the RFC gives 0..3; the unchanged template loop
+  stops when at most 4 octets are left);
+* set length < 65536 (the decoder's 16-bit arithmetic then never wraps), sets non-empty, template ids
+  non-zero (id 0 at a record boundary of a template set is the padding test), a template record (set id 2)
+  has at least one field, element ids < 32768, enterprise elements have id ≥ 1 (the decoder tests
+  `id > 0x8000`, not the E bit);
 * a data set's template is what `Cache.lookup` returns for (exporter address, set id) in the cache
   *as updated by the preceding sets of the same message* — no assumption about the hash other than
   `lookup (insert c a id t) a id = some t` (`announced_template_in_force`).
@@ -40,7 +46,7 @@ theorem record_roundtrip (t : Template) (vals : List VVal) (rest : Bytes) (c : N
       (.ok (Wire.Ipfix.expectedRecord t vals), ⟨rest, c + (Wire.Ipfix.encodeRecord t vals).length⟩) :=
   Ipfix.decodeData_roundtrip t vals rest c hw
 
-/-- the field loop alone, without the "longer than 4 octets" condition (which belongs to the record
+/-- the field loop alone, without the "positive length" condition (which belongs to the record
 loop): any list of specifiers against a conforming list of values -/
 theorem fields_roundtrip (specs : List Spec) (vals : List VVal) (rest : Bytes) (c : Nat) (acc : Record)
     (hl : specs.length = vals.length)
@@ -51,11 +57,12 @@ theorem fields_roundtrip (specs : List Spec) (vals : List VVal) (rest : Bytes) (
   Ipfix.decFields_roundtrip specs vals rest c acc hl hw
 
 /-- **C03 level 2a (record loop)**: over `records ++ pad ++ rest`, the set header announcing exactly
-`records ++ pad`, the loop yields all records in order, stops in front of the padding, no error, no
-direct return. -/
+`records ++ pad`, the padding shorter than the shortest record of the template (RFC 7011 §3.3.1), the
+loop yields all records in order, stops in front of the padding, no error, no direct return. -/
 theorem recordLoop_roundtrip (ctx : Ipfix.Ctx) (hsid : 255 < ctx.setId) (hlen16 : ctx.len < 65536)
     (records : List (List VVal)) (pad rest : Bytes) (fuel : Nat) (st : Ipfix.St)
-    (hrec : ∀ x ∈ records, Wire.Ipfix.wfRecord ctx.tr x = true) (hpad : pad.length ≤ 4)
+    (hrec : ∀ x ∈ records, Wire.Ipfix.wfRecord ctx.tr x = true)
+    (hpad : pad.length < Wire.Ipfix.minRecLen ctx.tr)
     (hrem : st.r.rem = Ipfix.body ctx.tr records ++ (pad ++ rest))
     (hstart : ctx.start ≤ st.r.cnt)
     (hleft : (st.r.cnt - ctx.start) + ((Ipfix.body ctx.tr records).length + pad.length) = ctx.len)
@@ -103,6 +110,14 @@ theorem message_roundtrip (c : Cache) (addr : Bytes) (m : Wire.Ipfix.Msg)
        (Wire.Ipfix.expected addr c m).2) :=
   Ipfix.decode_roundtrip c addr m hw
 
+/-- **RFC 7011 §3.3.1 "shorter than any allowable record"**: `Wire.Ipfix.minRecLen t` is a lower bound for
+every conforming record of `t` — so `wfDataPad` is exactly the RFC's condition — and the decoder's loop
+bound `Ipfix.minRecLen` is that number, clamped to 1. -/
+theorem minRecLen_is_shortest (t : Template) (vals : List VVal) (hw : Wire.Ipfix.wfRecord t vals = true) :
+    Wire.Ipfix.minRecLen t ≤ (Wire.Ipfix.encodeRecord t vals).length ∧
+    Ipfix.minRecLen t = (if Wire.Ipfix.minRecLen t < 1 then 1 else Wire.Ipfix.minRecLen t) :=
+  ⟨Ipfix.wfRecord_minRecLen hw, Ipfix.minRecLen_spec t⟩
+
 /-- the template a set has just announced is the one a data set with its id gets: the cache condition
 of `wfSet` is met by "announced earlier in this message under the same id" for every cache and every
 hash function behaviour -/
@@ -139,7 +154,10 @@ example : (Wire.Ipfix.expected exAddr [] exMsg).1 =
 evaluated here because a failed scan of the 400-row IANA table inside the kernel takes ~15 s. The
 correspondence runs exercise them: `extElems`.) -/
 
-/-! ## Known finding K2: records of ≤ 4 octets at the end of a set are dropped -/
+/-! ## Repaired findings: K2 (records of ≤ 4 octets at the end of a set were dropped) and F16 (5..7 octets
+of set padding were read as a record and the whole message was lost).  Both former counterexample inputs
+are now well-formed messages, and the model — evaluated by the kernel, independently of
+`message_roundtrip` — decodes them completely. -/
 
 def k2Tpl : Template := ⟨256, 1, 0, [], [⟨8, 4, 0⟩]⟩
 /-- template with one 4-octet field, then a data set with three records, no padding -/
@@ -149,15 +167,68 @@ def k2Msg : Wire.Ipfix.Msg :=
              .data k2Tpl [[⟨[10,0,0,1], false⟩], [⟨[10,0,0,2], false⟩], [⟨[10,0,0,3], false⟩]] []] }
 
 set_option maxRecDepth 100000 in
-/-- **K2**: the message violates only "record longer than 4 octets"; three records were encoded, the
-decoder returns the first two and no error: that hypothesis of the round-trip theorems cannot be
-dropped. -/
-theorem k2_counterexample :
+/-- **K2 repaired**: three records of 4 octets were encoded; before the padding repair the decoder
+returned the first two and no error (the former `k2_counterexample`); now the message is well-formed and
+all three come back. -/
+theorem k2_repaired :
+    Wire.Ipfix.wfMsg exAddr [] k2Msg = true ∧
     (Wire.Ipfix.expected exAddr [] k2Msg).1.length = 3 ∧
     (Ipfix.decode [] exAddr (Wire.Ipfix.encodeMsg k2Msg)).1 =
-      .ok (Wire.Ipfix.expectedHdr k2Msg, (Wire.Ipfix.expected exAddr [] k2Msg).1.take 2, []) ∧
+      .ok (Wire.Ipfix.expectedHdr k2Msg, (Wire.Ipfix.expected exAddr [] k2Msg).1, []) ∧
     (Wire.Ipfix.encodeRecord k2Tpl [⟨[10,0,0,3], false⟩]).length = 4 := by
-  refine ⟨by rfl, by rfl, by rfl⟩
+  refine ⟨by decide, by rfl, by rfl, by rfl⟩
+
+def k3Tpl : Template := ⟨256, 2, 0, [], [⟨8, 4, 0⟩, ⟨12, 4, 0⟩]⟩
+/-- template with two 4-octet fields, then three data sets of one 8-octet record followed by 5, 6 and 7
+zero octets of padding (shorter than the shortest record: RFC 7011 §3.3.1, 8-octet alignment) -/
+def k3Msg : Wire.Ipfix.Msg :=
+  { exportTime := 1700000000, seq := 9, domain := 1,
+    sets := [.tpl [k3Tpl] [],
+             .data k3Tpl [[⟨[10,0,0,1], false⟩, ⟨[10,0,0,2], false⟩]] [0,0,0,0,0],
+             .data k3Tpl [[⟨[10,0,0,3], false⟩, ⟨[10,0,0,4], false⟩]] [0,0,0,0,0,0],
+             .data k3Tpl [[⟨[10,0,0,5], false⟩, ⟨[10,0,0,6], false⟩]] [0,0,0,0,0,0,0]] }
+
+set_option maxRecDepth 100000 in
+/-- **F16 repaired (long padding)**: before the repair each of the three data sets alone made `Decode`
+return `(nil, "can not read the data")` — the padding, longer than 4 octets, was read as a record; the old
+`wfSetLen` excluded such messages (`pad ≤ 4`).  Now they are well-formed and decode completely. -/
+theorem k3_repaired :
+    Wire.Ipfix.wfMsg exAddr [] k3Msg = true ∧
+    (Ipfix.decode [] exAddr (Wire.Ipfix.encodeMsg k3Msg)).1 =
+      .ok (Wire.Ipfix.expectedHdr k3Msg,
+           [[⟨8, 0, .ip [10,0,0,1]⟩, ⟨12, 0, .ip [10,0,0,2]⟩], [⟨8, 0, .ip [10,0,0,3]⟩, ⟨12, 0, .ip [10,0,0,4]⟩],
+            [⟨8, 0, .ip [10,0,0,5]⟩, ⟨12, 0, .ip [10,0,0,6]⟩]], []) := by
+  refine ⟨by decide, by rfl⟩
+
+set_option maxRecDepth 100000 in
+/-- padding as long as the shortest record is not padding: the bound of `wfDataPad` is sharp (8 octets
+after 8-octet records are one more record); and a variable-length field counts one octet (`exTpl`: 4 + 1) -/
+example : Wire.Ipfix.wfSet exAddr (Wire.Ipfix.applySet exAddr ([], []) (.tpl [k3Tpl] [])).2
+    (.data k3Tpl [[⟨[10,0,0,1], false⟩, ⟨[10,0,0,2], false⟩]] [0,0,0,0,0,0,0,0]) = false := by decide
+example : Wire.Ipfix.minRecLen k3Tpl = 8 ∧ Wire.Ipfix.minRecLen exTpl = 5 ∧ Ipfix.minRecLen exTpl = 5 := by decide
+
+/-- template with one variable-length field (interfaceName): its shortest record is the 1-octet length prefix
+of an empty string -/
+def vTpl : Template := ⟨256, 1, 0, [], [⟨82, 65535, 0⟩]⟩
+/-- one 6-octet record ("eth01" with a 1-octet prefix) followed by ONE zero octet -/
+def vMsg : Wire.Ipfix.Msg :=
+  { exportTime := 1700000000, seq := 10, domain := 1,
+    sets := [.tpl [vTpl] [], .data vTpl [[⟨[101,116,104,48,49], false⟩]] [0]] }
+
+set_option maxRecDepth 100000 in
+/-- **Where the old and the new well-formedness differ the other way.**  The old predicate (records longer than
+4 octets, `pad ≤ 4`) accepted this message and the old decoder skipped the zero octet; RFC 7011 §3.3.1 does not:
+the template's shortest record has 1 octet, so no padding at all is allowed, and the octet `00` IS a record (an
+empty interfaceName).  `wfDataPad` rejects the message and the repaired decoder reports two records.  This —
+templates with variable-length fields whose shortest record has at most 4 octets, "padded" with at least that many
+octets — is the only region the old theorems covered and the new ones do not; everywhere else the new
+preconditions are weaker.  (For NetFlow v9 there is no such region: `4 < recLen` and `pad ≤ 4` imply `pad < recLen`.) -/
+theorem padding_not_shorter_than_a_record_is_data :
+    Wire.Ipfix.minRecLen vTpl = 1 ∧
+    Wire.Ipfix.wfMsg exAddr [] vMsg = false ∧
+    Ipfix.recordsOf (Ipfix.decode [] exAddr (Wire.Ipfix.encodeMsg vMsg)).1 =
+      [[⟨82, 0, .str [101,116,104,48,49]⟩], [⟨82, 0, .str []⟩]] := by
+  refine ⟨by decide, by decide, by rfl⟩
 
 /-- The point `wfSpec` excludes (enterprise bit set, element id 0: outside the 1..32767 range RFC 7012 §4 gives
 enterprise-specific identifiers): the decoder tests `ElementID > 0x8000`, so the specifier `80 00` is taken as the
